@@ -40,7 +40,7 @@ enum event_kind {
   EV_LOCK_META = 17,     // counter / migrated flag of stripe `value` is about to be accessed
   EV_BUCKETS_REPLACE = 18, // the bucket array of the table is about to be exchanged
   EV_FUNCTOR = 19,       // a user functor is about to run on bucket `value`
-  EV_BUCKETS_FREE = 20,  // a bucket container is about to destroy its elements and free its array
+  EV_BUCKETS_FREE = 20,  // a bucket container is asked to destroy its elements and free its array (value 1: already freed)
 };
 using handler_t = void (*)(int kind, const void *addr, std::size_t value);
 inline std::atomic<handler_t> &handler() {
